@@ -618,8 +618,11 @@ def run_property(pid: str, tier: str, seed: int) -> int:
     }
     if harness_errors:
         evidence["coverage"]["harness_errors"] = [e[:2000] for e in harness_errors]
-    EVIDENCE_DIR.mkdir(exist_ok=True)
-    (EVIDENCE_DIR / f"{pid}.json").write_text(json.dumps(evidence, indent=1, sort_keys=True))
+    # evidence/<id>.json describes runs against /repo only; runs against another source tree
+    # (VP_SRC: mutation experiments) are kept apart so that they never end up committed
+    evidence_dir = EVIDENCE_DIR if REPO_SRC == "/repo/src" else Path(_workdir()) / "evidence-other-source"
+    evidence_dir.mkdir(exist_ok=True)
+    (evidence_dir / f"{pid}.json").write_text(json.dumps(evidence, indent=1, sort_keys=True))
     for line in lines:
         print(line)
     print(
